@@ -140,6 +140,7 @@ type AuthOpts struct {
 	Slug           string
 	NoProxyClient  bool          // CLIENT_PROXY_ID / CLIENT_PROXY_SECRET are left unset (a misconfigured deployment)
 	ProxySecret    string        // CLIENT_PROXY_SECRET when it is not the usual one
+	NoProxySecret  bool          // CLIENT_PROXY_ID is set, CLIENT_PROXY_SECRET is not
 	GroupCacheTTL  time.Duration // PROVIDER_<slug>_GROUPCACHE_INTERVAL_PROVIDER (the provider-level default is 0: entries never expire)
 	ProviderType   string        // okta (default) | cognito
 }
@@ -227,6 +228,9 @@ func NewAuthEnv(o AuthOpts) (*AuthEnv, error) {
 		env["CLIENT_PROXY_ID"], env["CLIENT_PROXY_SECRET"] = ClientID, ClientSecret
 		if o.ProxySecret != "" {
 			env["CLIENT_PROXY_SECRET"] = o.ProxySecret
+		}
+		if o.NoProxySecret {
+			delete(env, "CLIENT_PROXY_SECRET")
 		}
 	}
 	if len(o.EmailDomains) > 0 {
